@@ -118,6 +118,10 @@ class RecDom(RecorderDomain):
         return state
 
     def on_stmt(self, node, state):
+        if node.kind == 'leave' and node.info.get('mode') == 'value' and node.info['callee'].func is self.roles.reader:
+            rv = state.env.get(('R', node.frame.id, id(node.ast)))
+            if rv is not None:
+                state = state.with_extra(reader_result=rv.name)
         if node.kind == 'leave' and node.info.get('mode') == 'test' and node.info['callee'].func is self.roles.sampler:
             keep = node.info['what'].startswith('true-from')
             return state.with_extra(decision='keep' if keep else 'drop')
